@@ -1002,11 +1002,18 @@ def prov_option_forwarding(repo, tier="quick"):
 # PROV.hcount-bookkeeping (C01): hydrogen count of both ends when a bond is made
 # ---------------------------------------------------------------------------
 
-def prov_hcount_bookkeeping(repo, tier="quick"):
+def prov_hcount_bookkeeping_sampler(repo, tier="quick"):
+    """The sampler's growth step creates bonds between fragments like the resolver does and owes the same bookkeeping
+    (sibling implementations of one step must agree): without it a descriptor on an aromatic atom leaves the ring
+    over-hydrogenated (C8H12 for p-xylene) or not kekulisable."""
+    return prov_hcount_bookkeeping(repo, tier, fq="sample:MoleculeSampler.add_fragment")
+
+
+def prov_hcount_bookkeeping(repo, tier="quick", fq="resolve:MoleculeResolver.edges_from_bonding_descrpt"):
     """At bond creation each non-hydrogen end loses 1.5 hydrogens if it is aromatic and 1 otherwise (never below 0).
     The count is discarded for ordinary atoms later, but pysmiles' aromatic correction reads it: an aromatic atom that is a
     fragment of its own must not look saturated."""
-    fi = repo.function("resolve:MoleculeResolver.edges_from_bonding_descrpt")
+    fi = repo.function(fq)
     fl, cfg = fi.flow, fi.cfg
     obs = []
     oid = "PROV.hcount-bookkeeping"
@@ -1022,7 +1029,7 @@ def prov_hcount_bookkeeping(repo, tier="quick"):
     bond_ends, ends_written = None, set()
     for call, nid in fl.calls():
         m = method_call(fl.canon(call, nid), "add_edge")
-        if m and len(m[2]) >= 2 and m[0] == ("attr", ("param", fi.params[0]), "molecule"):
+        if m and len(m[2]) >= 2 and (m[0] == ("attr", ("param", fi.params[0]), "molecule") or "bonding" in m[3]):
             bond_ends = {m[2][0], m[2][1]}
     for n in stores:
         na = node_attr(fl.canon(n.ast.targets[0], n.id))
